@@ -145,6 +145,24 @@ func runCfgOps(ops []string) []string {
 				out[i] = "none"
 			} else {
 				out[i] = dumpCfg(n)
+				// what GetExportOptions hands out is the caller's: scribbling over it must not reach the live configuration
+				o := n.GetExportOptions()
+				if o.Timeouts != nil {
+					*o.Timeouts = absnfs.TimeoutConfig{ReadTimeout: -7, WriteTimeout: -7, LookupTimeout: -7, ReaddirTimeout: -7, CreateTimeout: -7,
+						RemoveTimeout: -7, RenameTimeout: -7, HandleTimeout: -7, DefaultTimeout: -7}
+				}
+				for k := range o.AllowedIPs {
+					o.AllowedIPs[k] = "203.0.113.77"
+				}
+				if o.RateLimitConfig != nil {
+					o.RateLimitConfig.GlobalRequestsPerSecond, o.RateLimitConfig.PerIPRequestsPerSecond = -3, -3
+				}
+				if o.Log != nil {
+					o.Log.Level = "scribbled"
+				}
+				if again := dumpCfg(n); again != out[i] {
+					out[i] = "aliased: {" + out[i] + "} became {" + again + "} after the caller changed its copy"
+				}
 			}
 		case "probe": // not sent to the model: READ/WRITE/LOOKUP through the real handlers
 			out[i] = probeIO(n)
@@ -253,6 +271,10 @@ func cfgOracle(r *Result, ops, impl []string) {
 	pre := func(i int) []string { return append([]string(nil), ops[:i+1]...) }
 	lastGet := ""
 	for i, op := range ops {
+		if strings.HasPrefix(impl[i], "aliased:") {
+			r.violate(Violation{Class: "C24/returned-options-alias-live-config", What: "GetExportOptions returned a structure that shares memory with the configuration in force: " + impl[i], Ops: pre(i)})
+			continue
+		}
 		f := strings.Fields(op)
 		switch f[1] {
 		case "get":
